@@ -30,6 +30,7 @@ SCHEMAS = [
     [("x", "f8"), ("y", "u8"), ("z", "i2")],
     [("p", "u1"), ("q", "i4")],
     [("w", "i8")],
+    [("m", "f4"), ("n", "f4"), ("k", "i4")],      # 12 data bytes: record length 24 (= 8 * 3, not a power of two)
 ]
 
 
